@@ -20,6 +20,7 @@ EXPLANATION = (
     "raise_warning: warnings.warn is reached only when the check failed and raise_warning is set, the branch returns "
     "CoreCheckResult(passed=True) and cannot raise; (R6) groups restricts the dict given to the check function and "
     "unknown groups raise. (R7) definite assignment: no function of the Check API / check backend modules reads a local that a branch-only path from its entry leaves unassigned (CFG may-analysis, optimistic about try bodies and loop bodies, correlated guards pruned, non-empty local accumulators accepted as witnesses) - an UnboundLocalError there would escape the check. " 
+    " R4 also covers the runner: CoreCheckResult.passed in run_check (both backends) is never decided from, or under a condition on, the failure cases built for the report. " 
     "NOT decided: the metamorphic equalities over predicates and data."
 )
 LEVEL_RULE = "one obligation per constructor / backend function / option use site"
@@ -279,6 +280,13 @@ def r4_n_failure_cases(ctx):
                            "verdict independent of failure-case reporting" if not bad else f"verdict built from {bad}", f.loc(c))
 
 
+def r4_runner_verdict(ctx):
+    """ignore_na / n_failure_cases shape the *report*; the runner's verdict (CoreCheckResult.passed in run_check) is the
+    check's own check_passed and is never decided from, or under a condition on, the failure cases built for the report."""
+    from .c01 import r12_verdict_not_from_report
+    r12_verdict_not_from_report(ctx, rule="R4", only=("run_check",), which=("pandas", "polars"))
+
+
 def r5_raise_warning(ctx):
     ix = ctx.ix
     for q in ("pandera/backends/pandas/base.py::PandasSchemaBackend.run_check",
@@ -374,6 +382,7 @@ def run(ctx):
     r2_element_wise(ctx)
     r3_ignore_na(ctx)
     r4_n_failure_cases(ctx)
+    r4_runner_verdict(ctx)
     r5_raise_warning(ctx)
     r6_groups(ctx)
     ctx.assume("Series.map / DataFrame.apply(axis=1) / Expr.map_elements apply the function element-wise as documented by pandas/polars")
